@@ -11,7 +11,7 @@ namespace nmtools::view::fun
         template <typename T, typename U>
         constexpr auto operator()(const T& t, const U& u) const
         {
-            return static_cast<bool>(t) ^ static_cast<bool>(u);
+            return static_cast<bool>(t) != static_cast<bool>(u);
         } // operator()
     }; // logical_xor
 }
